@@ -90,8 +90,9 @@ fn main() -> Result<()> {
             let watch_option = arg_matches.is_present(cli::arg::WATCH).into();
             let termination_events = terminate_on_ctrlc()?;
 
-            let (target_actor_output_sender, target_actor_output_events) =
-                channel::bounded(crate::DEFAULT_CHANNEL_CAP);
+            // Unbounded: a target actor must never block on this channel, as the loop reading
+            // it may itself be waiting for room in that actor's (bounded) inbox.
+            let (target_actor_output_sender, target_actor_output_events) = channel::unbounded();
             let mut target_actors =
                 TargetActors::new(targets, target_actor_output_sender, watch_option);
 
